@@ -33,6 +33,14 @@ BaseShape  == "dns"
 BaseStyle  == "canon"
 BaseKV     == "valid"
 
+\* origin names that are not valid server names.  "invalid" is a mixed class; the others are one
+\* grammar violation each and are explored on the otherwise unvaried request (they cost two deviations):
+\* bracketed IPv4 without / with port, port > 65535, port of more than five digits, signed port (- / +),
+\* empty host, host with an illegal character (_ / space / slash), unbalanced bracket, 256-character DNS name
+ExtraInvalidOrigins == {"inv_brk4", "inv_brk4port", "inv_portbig", "inv_port6", "inv_portneg", "inv_portplus",
+                        "inv_emptyhost", "inv_underscore", "inv_space", "inv_slash", "inv_bracket", "inv_long"}
+InvalidOrigins == {"invalid"} \cup ExtraInvalidOrigins
+
 AllTamperKinds ==
     {"method", "method_same", "uri", "origin", "drop_origin", "dest_local", "dest_foreign", "drop_dest",
      "body", "body_ws", "body_drop", "nonutf8", "ctype_text", "ctype_none", "ctype_param",
@@ -63,9 +71,15 @@ vars == <<phase, req, signed, wire, applied, rcv, out>>
 
 None == [none |-> TRUE]
 
+\* deviations of a request / an emit style from the base scenario
+ReqDev(r) == (IF r.m = BaseMethod THEN 0 ELSE 1) + (IF r.u = BaseURI THEN 0 ELSE 1)
+     + (IF r.os = BaseShape THEN 0 ELSE IF r.os \in ExtraInvalidOrigins THEN 2 ELSE 1) + (IF r.ds = BaseShape THEN 0 ELSE 1)
+StyleDev(st) == IF st = BaseStyle THEN 0 ELSE 1
+
 \* ------------------------------------------------------------------ sender
 Compose(m, u, os, ds, down, b) ==
     /\ phase = "init"
+    /\ ReqDev([m |-> m, u |-> u, os |-> os, ds |-> ds]) <= Budget      \* nothing beyond the budget is ever received
     /\ req' = [m |-> m, u |-> u, os |-> os, ds |-> ds, down |-> down, body |-> b]
     /\ phase' = "composed"
     /\ UNCHANGED <<signed, wire, applied, rcv, out>>
@@ -80,6 +94,7 @@ Sign(key) ==
 
 Emit(style) ==
     /\ phase = "signed"
+    /\ ReqDev(req) + StyleDev(style) <= Budget
     /\ wire' = [method |-> signed.m, uri |-> signed.u, body |-> signed.b, ws |-> FALSE,
                 ctype |-> IF signed.b = "none" THEN "absent" ELSE "json",
                 scheme |-> "X-Matrix", origin |-> signed.o, dest |-> signed.d, key |-> signed.key, sig |-> "S0",
@@ -88,9 +103,7 @@ Emit(style) ==
     /\ UNCHANGED <<req, signed, applied, rcv, out>>
 
 \* ----------------------------------------------------------------- network
-Dev == (IF req.m = BaseMethod THEN 0 ELSE 1) + (IF req.u = BaseURI THEN 0 ELSE 1)
-     + (IF req.os = BaseShape THEN 0 ELSE 1) + (IF req.ds = BaseShape THEN 0 ELSE 1)
-     + (IF wire.style = BaseStyle THEN 0 ELSE 1)
+Dev == ReqDev(req) + StyleDev(wire.style)
 
 Tamper(k) ==
     /\ phase = "sent"
@@ -172,7 +185,7 @@ Headers(w) ==
              \o (IF w.second THEN <<Header(w, "O2")>> ELSE <<>>))
 
 \* ---------------------------------------------------------------- receiver
-OriginValid(o) == o = "O2" \/ (o = "O" /\ req.os # "invalid")
+OriginValid(o) == o = "O2" \/ (o = "O" /\ req.os \notin InvalidOrigins)
 Owned(d, cfg)  == d = "P" \/ (cfg = "multi" /\ d = "S")
 JSONType(c)    == c \in {"json", "jsonparam"}
 UTF8(b)        == b \in {"B", "B2"}
@@ -247,14 +260,14 @@ NoEffect(k) ==
 \* accepted at the named destination when sent as signed
 Complete ==
     (Done /\ (\A k \in applied : NoEffect(k))
-          /\ Owned(signed.d, rcv.cfg) /\ req.os # "invalid" /\ req.body # "nonutf8"
+          /\ Owned(signed.d, rcv.cfg) /\ req.os \notin InvalidOrigins /\ req.body # "nonutf8"
           /\ rcv.kv \in {"valid", "validfar"})
     => out.accept
 
 \* the refusal clauses of the property sentence, one by one
 RefuseForeign   == (Done /\ ~Owned(signed.d, rcv.cfg) /\ "drop_dest" \notin applied /\ "dest_local" \notin applied) => ~out.accept
 RefuseNoHeader  == (Done /\ applied \cap {"no_header", "scheme", "drop_origin", "drop_key", "drop_sig", "second_origin"} # {}) => ~out.accept
-RefuseBadOrigin == (Done /\ req.os = "invalid" /\ "origin" \notin applied) => ~out.accept
+RefuseBadOrigin == (Done /\ req.os \in InvalidOrigins /\ "origin" \notin applied) => ~out.accept
 RefuseBadBody   == (Done /\ wire.body # "none" /\ (wire.ctype \in {"text", "absent"} \/ wire.body \in {"X", "X2"})) => ~out.accept
 RefuseBadKey    == (Done /\ rcv.kv \notin {"valid", "validfar"}) => ~out.accept
 RefuseChanged   == (Done /\ applied \cap {"method", "uri", "origin", "dest_local", "dest_foreign", "body", "nonutf8", "sig_flip", "key_other"} # {}) => ~out.accept
